@@ -156,6 +156,7 @@ class Environment:
         self._events = []
         self._paused_events = []
         self._terminated = True
+        self._active_runs = 0
         self._event_trace = {}
         self._trace = False
         self._event_index = 0
@@ -178,12 +179,22 @@ class Environment:
         self._terminated = False
         self._trace = trace
 
-        self.schedule_event(self.now + simulation_duration, -1, self._terminate, EventType.TERMINATE)
+        # Each run has its own terminate Event: a run started from
+        # within an Event's action must not end the run it is nested in.
+        run_finished = []
+
+        def _terminate():
+            run_finished.append(True)
+
+        self._active_runs += 1
+        self.schedule_event(self.now + simulation_duration, -1, _terminate, EventType.TERMINATE)
 
         try:
-            while self._events and not self._terminated:
+            while self._events and not run_finished:
                 self.step()
         finally:
+            self._active_runs -= 1
+            self._terminated = self._active_runs <= 0
             if self._trace:
                 self._export_trace()
 
